@@ -184,6 +184,8 @@ def parse_type(t):
         base, dims = m.group(1), m.group(2)
         if base in ("f32", "f64", "f") and dims.strip().isdigit():
             return ("flist", int(dims))
+        if base in ("i64", "i") and dims.strip().isdigit():
+            return ("ilist", int(dims))   # a python list of that many ints
         nd = dims.count(":")
         dt = ("s" if base == "str" else "f" if base[0] == "f" else "r" if base[0] == "r" else "b" if base == "bool"
               else base if base in ("u16", "u32") else "i")
